@@ -26,6 +26,6 @@ Your task: produce ONE realistic change to the project's non-test source (a plau
 Deliverables, all under {out}/ (create the directory):
   1. patch.diff  - `git -C {wt} diff` of your change (must apply with `git apply` to the pinned commit).
   2. a demonstration: a Go test file (say demo_test.go, note in which package directory of the project it must be placed) or a small program that FAILS with the change applied and PASSES without it. Keep it deterministic (for schedule-dependent bugs you may force the interleaving in the demo with sleeps/hooks local to the demo, or loop enough times to make it fail reliably, and say so).
-  3. notes.md - which file/function you changed, why it breaks the property, what specific condition it needs in order to manifest, and the exact commands you ran: (a) the existing test suite with the change applied (paste the pass/fail summary per package), (b) the demonstration with the change (fails) and without it (passes; use `git stash` or `git apply -R`).
+  3. notes.md - which file/function you changed, why it breaks the property, what specific condition it needs in order to manifest, and the exact commands you ran: (a) the existing test suite with the change applied (paste the pass/fail summary per package), (b) the demonstration with the change (fails) and without it (passes; use `git apply -R /tmp/seed/.../patch.diff` and re-apply afterwards - do NOT use `git stash`: the stash is shared between all worktrees of the repository and other agents work in sibling worktrees).
 
 Leave the worktree with your change applied (uncommitted) when you finish. Your final message should summarise: the change in one or two sentences, what it needs to manifest, and the paths of the deliverables.""")
